@@ -120,6 +120,10 @@ func RunAll(run *hlib.Run, prop string, sigPrefixes []string, n int) {
 			hangs++
 		}
 		classify(run, res)
+		if res.GoPanic != "" {
+			ownFails++
+			run.IOFail(prop+":producer-goroutine-panicked", "sc "+strconv.FormatUint(s, 10), res.GoPanic+" | "+sc.String())
+		}
 		for _, f := range Check(res) {
 			mine := false
 			for _, p := range sigPrefixes {
@@ -158,9 +162,39 @@ func RunAll(run *hlib.Run, prop string, sigPrefixes []string, n int) {
 		if len(sops) > 0 {
 			run.Count("sync-shim-lines")
 		}
+		if prop == "C02" {
+			sysReplay(run, res)
+		}
 		traces++
 	}
 	run.Set("traces_validated", traces)
+}
+
+// sysReplay emits the replay of the scenario through the composed system model (Model.Pipeline), if the scenario
+// is inside the model's scope, and counts what was replayed and why the rest was not.
+func sysReplay(run *hlib.Run, res *Result) {
+	part, why := SysScope(res)
+	if why == "" && res.CloseHang {
+		why = "close-hang"
+	}
+	if why != "" {
+		run.Count("sys-skipped:" + why)
+		return
+	}
+	ops, workers, note := SysLines(res, part)
+	if note != "" {
+		run.Count("sys-skipped:" + note)
+		return
+	}
+	for _, l := range ops {
+		run.Emit(l, "ok")
+	}
+	run.Count("sys-replayed")
+	if workers <= 1 {
+		run.Count("sys-replayed-single-worker")
+	} else {
+		run.Count("sys-replayed-multi-worker")
+	}
 }
 
 func classify(run *hlib.Run, res *Result) {
